@@ -606,7 +606,7 @@ class DictDeserializer:
         if idx in self.types:
             return self.types[idx]
 
-        t = self.type_worklist.pop(idx)
+        t = self.type_worklist[idx]
         kind = t["kind"]
         if kind == "base":
             name = t["name"]
@@ -627,12 +627,14 @@ class DictDeserializer:
                 dt.add_field(name, field_typ, offset)
         elif kind == "pointer":
             ptype = self.get_type(t["pointed_type"])
-            dt = DebugPointerType(ptype)
-            self.types[idx] = dt
+            # A recursive type (struct S { struct S *next; }) might have
+            # created this pointer type while resolving the pointed type.
+            if idx not in self.types:
+                self.types[idx] = DebugPointerType(ptype)
         elif kind == "array":
             etype = self.get_type(t["element_type"])
-            dt = DebugArrayType(etype, t["size"])
-            self.types[idx] = dt
+            if idx not in self.types:
+                self.types[idx] = DebugArrayType(etype, t["size"])
         else:  # pragma: no cover
             raise NotImplementedError(kind)
         return self.types[idx]
